@@ -317,6 +317,51 @@ def gen_sweep_conn(r, g, cfg, max_len):
             'closes': [[0, o] for o in offs], 'sweep': True}
 
 
+def gen_faultsweep_conn(r, g, cfg, kind, tier):
+    """Enumerated single faults on one frame: the connection carries one
+    copy of the frame per fault, each copy damaged differently.
+    truncsweep: payload cut at EVERY length, envelope rewritten (and raw).
+    bytesweep:  EVERY byte overwritten with several values (all 255 other
+                values in the thorough tier for short frames)."""
+    for _ in range(30):
+        cfg['marker'] += 1
+        if r.random() < 0.5:
+            d, data = table_heavy_frame(r, g, cfg['marker'])
+        else:
+            d, data = encodable_frame(g, cfg['marker'],
+                                      (('method', 3), ('header', 2)), 64)
+        if 9 <= len(data) <= (400 if tier == 'quick' else 1500):
+            break
+    L = len(data)
+    frames, faults = [], []
+
+    def add(patches, reframe, label):
+        faults.append({'frame': len(frames), 'kind': label,
+                       'patches': patches, 'reframe': reframe})
+        frames.append(d)
+    if kind == 'truncsweep':
+        for keep in range(7, L - 1):
+            add([[keep, L - keep - 1, '']], True, 'truncate@')
+        for keep in range(7, L - 1, 3):
+            add([[keep, L - keep, '']], False, 'cut_raw@')
+    else:
+        vals_all = tier != 'quick' and L <= 120
+        for o in range(L):
+            cur = data[o]
+            if vals_all:
+                vals = [v for v in range(256) if v != cur]
+            else:
+                vals = {0x00, 0xff, 0x80, 0x7f, (cur + 1) & 255,
+                        (cur - 1) & 255, cur ^ 0x80, cur | 1,
+                        r.getrandbits(8)} - {cur}
+            for v in sorted(vals):
+                add([[o, 1, '%02x' % v]], r.random() < 0.5 and o >= 7,
+                    'overwrite@')
+    return {'recv': 'A', 'frames': frames, 'cuts': [[k, 0] for k in
+                                                    range(1, len(frames))],
+            'lat': [1], 'stalls': [], 'closes': [], 'faults': faults}
+
+
 MIXES = [
     (('method', 5), ('header', 2), ('body', 2), ('heartbeat', 1)),
     (('method', 1),), (('header', 1),), (('body', 1),),
@@ -373,6 +418,8 @@ def gen_trace(rng, check, population, tier='quick'):
         maxlen = 2048 if tier == 'quick' else 140000
         for _ in range(r.randint(1, 3)):
             conns.append(gen_sweep_conn(r, g, cfg, maxlen))
+    elif population in ('truncsweep', 'bytesweep'):
+        conns.append(gen_faultsweep_conn(r, g, cfg, population, tier))
     elif population == 'long':
         for _ in range(r.choice((1, 2, 3))):
             conns.append(gen_conn(r, g, 'long', cfg))
